@@ -99,7 +99,8 @@ def parseOp (s : State) (j : Json) : Option Op :=
   | [Json.str "reopen", Json.bool b] => some (.reopen b)
   | _ => none
 
-def touchJ : Touch → String | .none => "none" | .self => "self" | .parent => "parent"
+def touchJ : Touch → String
+  | .none => "none" | .self => "self" | .parent => "parent" | .linked => "linked"
 def mkindJ : MKind → String
   | .setter => "setter" | .method => "method" | .forceCreated => "forceCreated"
   | .forceUpdated => "forceUpdated"
